@@ -342,9 +342,6 @@ func (channel *Channel) SendMethod(method amqp.Method) {
 func (channel *Channel) sendOutgoing(frame *amqp.Frame) {
 	select {
 	case <-channel.conn.ctx.Done():
-		if channel.id == 0 {
-			close(channel.outgoing)
-		}
 	case channel.outgoing <- frame:
 	}
 }
